@@ -60,6 +60,24 @@ func c03Policy(cs *core.Case) []spec.Op {
 	implying := []spec.Op{sw(spec.SwNoFollow, true), sw(spec.SwNoFollow, false), sw(spec.SwNoFollowFQ, true), sw(spec.SwNoFollowFQ, false), sw(spec.SwNoReferrer, true), sw(spec.SwNoReferrer, false),
 		sw(spec.SwNoReferrerFQ, true), sw(spec.SwNoReferrerFQ, false), sw(spec.SwTargetBlank, true), sw(spec.SwTargetBlank, false), sw(spec.SwRelative, false), sw(spec.SwRelative, true),
 		{K: spec.KSchemes, Names: []string{"https"}}, {K: spec.KSchemeCustom, Names: []string{"https"}, Check: "host-example"}, {K: spec.KDataURIImages}, {K: spec.KStdURLs}, {K: spec.KImages}, sw(spec.SwParseable, true)}
+	// scheme registrations followed by a helper that registers the same scheme (and the reverse)
+	pairs := [][]spec.Op{
+		{{K: spec.KSchemes, Names: []string{"data", "http"}}, {K: spec.KDataURIImages}},
+		{{K: spec.KDataURIImages}, {K: spec.KSchemes, Names: []string{"data"}}},
+		{{K: spec.KSchemeCustom, Names: []string{"data"}, Check: "never"}, {K: spec.KDataURIImages}},
+		{{K: spec.KDataURIImages}, {K: spec.KDataURIImages}},
+		{{K: spec.KSchemes, Names: []string{"mailto", "ftp"}}, {K: spec.KStdURLs}},
+		{{K: spec.KSchemeCustom, Names: []string{"http"}, Check: "host-example"}, {K: spec.KStdURLs}},
+		{{K: spec.KStdURLs}, {K: spec.KSchemeCustom, Names: []string{"http"}, Check: "host-example"}},
+		{{K: spec.KSchemeCustom, Names: []string{"https"}, Check: "never"}, {K: spec.KImages}},
+	}
+	if j := cs.Index - 2*len(implying); j >= 0 && j < 2*len(pairs) {
+		ops = append(ops, pairs[j%len(pairs)]...)
+		if j >= len(pairs) {
+			ops = append(ops, sw(spec.SwRelative, true))
+		}
+		return ops
+	}
 	if cs.Index < 2*len(implying) {
 		ops = append(ops, implying[cs.Index%len(implying)])
 		if cs.Index >= len(implying) {
